@@ -223,7 +223,9 @@ def locate(case, real, alts, layout):
             scope = name if name.startswith(_SHARED_PARTS) else "%s:%s" % (kind, name)
             if name.endswith("flags") and len(rb) >= pos + ln:
                 x = int.from_bytes(rb[pos:pos + ln], "big") ^ int.from_bytes(sb[pos:pos + ln], "big")
-                return [(scope, "bit-0x%x" % (1 << b)) for b in range(ln * 8) if x >> b & 1]
+                bits = [b for b in range(ln * 8) if x >> b & 1]
+                if len(bits) <= 2:                       # a flag or two wrong; more = the word itself is misplaced / mis-sized
+                    return [(scope, "bit-0x%x" % (1 << b)) for b in bits]
             return [(scope, "truncated" if i >= len(rb) else "differs")]
         pos += ln
     return [("%s:end-of-body" % kind, "trailing-bytes" if len(rb) > len(sb) else "differs")]
@@ -339,26 +341,303 @@ def build_type(t):
     raise ValueError("no driver type for %r" % (k,))
 
 
-def _cell(v, real_type_tree):
-    """decoded cell -> bytes as on the wire, for the two value types the specification uses (int, text/varchar/ascii)"""
-    if v is None:
-        return None
-    if isinstance(v, bool):
-        return ("?", repr(v))
-    if isinstance(v, int):
-        return struct.pack(">i", v)
-    if isinstance(v, str):
-        return v.encode("utf8")
-    if isinstance(v, bytes):
-        return v
-    return ("?", repr(v))
-
-
-def _s(x):
-    """str / bytes -> bytes (text fields are compared as UTF-8 bytes)"""
+def _b(x):
+    """str / bytes -> bytes (text is compared as UTF-8 bytes); anything else unchanged"""
     if isinstance(x, str):
         return x.encode("utf8")
     return x
+
+
+def _cell(v):
+    """decoded cell -> bytes as on the wire, for the two value types the specification fills in (int, varchar)"""
+    if v is None:
+        return None
+    if isinstance(v, bool):
+        return "?" + repr(v)
+    if isinstance(v, int):
+        try:
+            return struct.pack(">i", v)
+        except struct.error:
+            return "?" + repr(v)
+    if isinstance(v, (str, bytes)):
+        return _b(v)
+    return "?" + repr(v)
+
+
+def _val(v):
+    """specification [bytes] value -> bytes / None"""
+    return None if v[0] != "v" else bytes(v[1])
+
+
+def _ob(m):
+    """option of bytes -> bytes / None"""
+    return bytes(m[0]) if m else None
+
+
+def _ntop(addr):
+    import socket
+    return socket.inet_ntop(socket.AF_INET if len(addr) == 4 else socket.AF_INET6, bytes(addr))
+
+
+# protocol error code -> (message class in cassandra.protocol, documented exception in cassandra or None)
+ERROR_API = {
+    0x0000: ("ServerError", None), 0x000A: ("ProtocolException", None), 0x0100: ("BadCredentials", None),
+    0x1000: ("UnavailableErrorMessage", "Unavailable"), 0x1001: ("OverloadedErrorMessage", None),
+    0x1002: ("IsBootstrappingErrorMessage", None), 0x1003: ("TruncateError", None),
+    0x1100: ("WriteTimeoutErrorMessage", "WriteTimeout"), 0x1200: ("ReadTimeoutErrorMessage", "ReadTimeout"),
+    0x1300: ("ReadFailureMessage", "ReadFailure"), 0x1400: ("FunctionFailureMessage", "FunctionFailure"),
+    0x1500: ("WriteFailureMessage", "WriteFailure"), 0x1600: ("CDCWriteException", None),
+    0x1700: ("ErrorMessage", None),            # CAS_WRITE_UNKNOWN: no class in the driver -> generic ErrorMessage
+    0x2000: ("SyntaxException", None), 0x2100: ("UnauthorizedErrorMessage", "Unauthorized"),
+    0x2200: ("InvalidRequestException", "InvalidRequest"), 0x2300: ("ConfigurationException", None),
+    0x2400: ("AlreadyExistsException", "AlreadyExists"), 0x2500: ("PreparedQueryNotFound", None),
+}
+# field names of the protocol documents -> attribute names documented by the driver (cassandra.Unavailable, ...)
+FIELD_API = {"cl": "consistency", "required": "required_replicas", "alive": "alive_replicas",
+             "received": "received_responses", "blockfor": "required_responses", "write_type": "write_type",
+             "data_present": "data_retrieved", "numfailures": "failures", "reasonmap": "error_code_map",
+             "keyspace": "keyspace", "function": "function", "arg_types": "arg_types", "table": "table"}
+UNDOCUMENTED_FIELDS = ("contentions",)         # v5 Write_timeout <contentions>: no attribute in the driver's API
+
+
+def _info_value(name, v):
+    cas = repo_import("cassandra")
+    if name == "write_type":
+        return cas.WriteType.name_to_value.get(text(v), "?" + text(v))
+    if name == "reasonmap":
+        return {_ntop(a): code for a, code in v}
+    if name == "arg_types":
+        return [bytes(x) for x in v]
+    if name in ("keyspace", "function", "table"):
+        return bytes(v)
+    return v
+
+
+def expected_fields(st):
+    """what the decoded message must carry, as {field path: comparable value}, from a state of WireResponses.tla"""
+    c, fx, exp = st["c"], st["fx"], st["exp"]
+    f = {"stream_id": c["stream"],
+         "trace_id": _ob(fx["trace"]),
+         "warnings": [bytes(w) for w in fx["warnings"][0]] if fx["warnings"] else None,
+         "custom_payload": {bytes(k): _val(v) for k, v in fx["payload"][0]} if fx["payload"] else None}
+    cls = exp["cls"]
+    if cls == "AUTHENTICATE":
+        f["authenticator"] = bytes(exp["authenticator"])
+    elif cls in ("AUTH_CHALLENGE", "AUTH_SUCCESS"):
+        f["token"] = _val(exp["token"])
+    elif cls == "SUPPORTED":
+        f["options"] = {bytes(k): [bytes(x) for x in v] for k, v in exp["options"]}
+    elif cls == "EVENT":
+        f["event_type"] = exp["etype"]
+        if exp["etype"] == "SCHEMA_CHANGE":
+            f.update(_schema_expected(exp))
+        else:
+            f["change_type"] = bytes(exp["change"])
+            f["address"] = (_ntop(exp["addr"]), exp["port"])
+    elif cls == "ERROR":
+        f["class"], f["exception"] = ERROR_API[exp["code"]]
+        f["code"] = exp["code"]
+        f["message"] = bytes(exp["msg"])
+        if exp["code"] == 0x2500:
+            f["info"] = bytes(exp["info"][0][1])
+        elif exp["code"] != 0x1700:
+            for name, v in exp["info"]:
+                if name in UNDOCUMENTED_FIELDS:
+                    continue
+                f["info." + FIELD_API[name]] = _info_value(name, v)
+                if f["exception"] is not None:           # the documented exception carries the same fields
+                    f["exc." + FIELD_API[name]] = _info_value(name, v)
+    elif cls == "RESULT":
+        k = f["kind"] = exp["kind"]
+        if k == "set_keyspace":
+            f["new_keyspace"] = bytes(exp["keyspace"])
+        elif k == "schema_change":
+            f.update(_schema_expected(exp))
+        elif k == "rows":
+            cols = exp["cols"]
+            f["column_names"] = [bytes(x["name"]) for x in cols]
+            f["column_types"] = [spec_type_tree(x["type"]) for x in cols]
+            f["column_tables"] = None if exp["nometa"] else [(bytes(x["ks"]), bytes(x["table"])) for x in cols]
+            f["parsed_rows"] = [[_val(cell) for cell in row] for row in exp["rows"]]
+            f["paging_state"] = _ob(exp["paging_state"])
+            f["result_metadata_id"] = _ob(exp["metadata_id"])
+            f["continuous_paging_seq"] = exp["cont"][0]["seq"] if exp["cont"] else None
+            f["continuous_paging_last"] = exp["cont"][0]["last"] if exp["cont"] else None
+        elif k == "prepared":
+            f["query_id"] = bytes(exp["id"])
+            f["result_metadata_id"] = _ob(exp["metadata_id"])
+            f["pk_indexes"] = list(exp["pk"][0]) if exp["pk"] else None
+            f["bind_metadata"] = [(bytes(x["ks"]), bytes(x["table"]), bytes(x["name"])) for x in exp["bind"]]
+            f["bind_types"] = [spec_type_tree(x["type"]) for x in exp["bind"]]
+            res = exp["result"]
+            f["column_metadata"] = [(bytes(x["ks"]), bytes(x["table"]), bytes(x["name"])) for x in res[0]] if res else None
+            f["column_metadata_types"] = [spec_type_tree(x["type"]) for x in res[0]] if res else None
+    return f
+
+
+def _schema_expected(exp):
+    return {"target_type": exp["target"], "change_type": bytes(exp["change"]), "keyspace": bytes(exp["keyspace"]),
+            "target_name": _ob(exp["name"]), "argument_types": [bytes(a) for a in exp["args"][0]] if exp["args"] else None}
+
+
+def _schema_projected(ev):
+    tt = ev.get("target_type")
+    name = args = None
+    if tt in ("FUNCTION", "AGGREGATE"):
+        d = ev.get(tt.lower())
+        name = _b(getattr(d, "name", None))
+        at = getattr(d, "argument_types", None)
+        args = None if at is None else [_b(a) for a in at]
+    elif tt != "KEYSPACE":
+        name = _b(ev.get(str(tt).lower()))
+    extra = sorted(set(ev) - {"target_type", "change_type", "keyspace", "table", "type", "function", "aggregate"})
+    return {"target_type": tt, "change_type": _b(ev.get("change_type")), "keyspace": _b(ev.get("keyspace")),
+            "target_name": name, "argument_types": args, **({"unexpected_keys": extra} if extra else {})}
+
+
+def _cols(md):
+    return None if md is None else [(_b(c[0]), _b(c[1]), _b(c[2])) for c in md]
+
+
+def projected_fields(st, msg):
+    """the same {field path: value} read off the decoded message (and, for errors, its to_exception())"""
+    proto = repo_import("cassandra.protocol")
+    exp = st["exp"]
+    tid = getattr(msg, "trace_id", None)
+    w = getattr(msg, "warnings", None)
+    cp = getattr(msg, "custom_payload", None)
+    f = {"stream_id": getattr(msg, "stream_id", None),
+         "trace_id": getattr(tid, "bytes", tid),
+         "warnings": None if w is None else [_b(x) for x in w],
+         "custom_payload": None if cp is None else {_b(k): v for k, v in cp.items()}}
+    cls = exp["cls"]
+    want = {"READY": proto.ReadyMessage, "AUTHENTICATE": proto.AuthenticateMessage, "AUTH_CHALLENGE": proto.AuthChallengeMessage,
+            "AUTH_SUCCESS": proto.AuthSuccessMessage, "SUPPORTED": proto.SupportedMessage, "EVENT": proto.EventMessage,
+            "ERROR": proto.ErrorMessage, "RESULT": proto.ResultMessage}[cls]
+    if not isinstance(msg, want):
+        f["message_class"] = type(msg).__name__
+        return f
+    if cls == "AUTHENTICATE":
+        f["authenticator"] = _b(msg.authenticator)
+    elif cls == "AUTH_CHALLENGE":
+        f["token"] = _b(msg.challenge)
+    elif cls == "AUTH_SUCCESS":
+        f["token"] = _b(msg.token)
+    elif cls == "SUPPORTED":
+        o = {_b(k): [_b(x) for x in v] for k, v in msg.options.items()}
+        o[b"CQL_VERSION"] = [_b(x) for x in msg.cql_versions]
+        f["options"] = o
+    elif cls == "EVENT":
+        f["event_type"] = msg.event_type
+        if msg.event_type == "SCHEMA_CHANGE":
+            f.update(_schema_projected(msg.event_args))
+        else:
+            f["change_type"] = _b(msg.event_args.get("change_type"))
+            f["address"] = msg.event_args.get("address")
+    elif cls == "ERROR":
+        cas = repo_import("cassandra")
+        want_cls, want_exc = ERROR_API[exp["code"]]
+        # class: exactly the one registered for the code (a generic ErrorMessage for codes the driver does not know)
+        f["class"] = type(msg).__name__
+        f["code"] = msg.code
+        f["message"] = _b(msg.message)
+        info = msg.info
+        if exp["code"] == 0x2500:
+            f["info"] = info
+        elif exp["code"] != 0x1700 and isinstance(info, dict):
+            for k, v in info.items():
+                f["info." + k] = [_b(x) for x in v] if k == "arg_types" else _b(v)
+            if not HasReasonMap(st["c"]["pv"]) and info.get("error_code_map") is None:
+                f.pop("info.error_code_map", None)
+        try:
+            exc = msg.to_exception()
+        except Exception as ex:                                  # a broken driver may fail here
+            exc = ex
+            f["exception"] = "raised " + type(ex).__name__
+        if "exception" not in f:
+            if want_exc is None:
+                f["exception"] = None if (exc is msg and isinstance(exc, Exception)) else type(exc).__name__
+            else:
+                f["exception"] = want_exc if isinstance(exc, getattr(cas, want_exc)) else type(exc).__name__
+                for name, _v in exp["info"]:
+                    if name in UNDOCUMENTED_FIELDS:
+                        continue
+                    attr = FIELD_API[name]
+                    v = getattr(exc, attr, "<no attribute>")
+                    f["exc." + attr] = [_b(x) for x in v] if attr == "arg_types" and isinstance(v, (list, tuple)) else _b(v)
+                if want_exc in ("Unauthorized", "InvalidRequest") and text(exp["msg"]) not in str(exc):
+                    f["exc.message"] = str(exc)
+    elif cls == "RESULT":
+        kinds = {proto.RESULT_KIND_VOID: "void", proto.RESULT_KIND_ROWS: "rows", proto.RESULT_KIND_SET_KEYSPACE: "set_keyspace",
+                 proto.RESULT_KIND_PREPARED: "prepared", proto.RESULT_KIND_SCHEMA_CHANGE: "schema_change"}
+        k = f["kind"] = kinds.get(msg.kind, msg.kind)
+        if k == "set_keyspace":
+            f["new_keyspace"] = _b(msg.new_keyspace)
+        elif k == "schema_change":
+            f.update(_schema_projected(msg.schema_change_event))
+        elif k == "rows":
+            f["column_names"] = None if msg.column_names is None else [_b(x) for x in msg.column_names]
+            f["column_types"] = None if msg.column_types is None else [type_tree(t) for t in msg.column_types]
+            md = msg.column_metadata
+            f["column_tables"] = None if md is None else [(_b(x[0]), _b(x[1])) for x in md]
+            f["parsed_rows"] = None if msg.parsed_rows is None else [[_cell(v) for v in row] for row in msg.parsed_rows]
+            f["paging_state"] = msg.paging_state
+            f["result_metadata_id"] = getattr(msg, "result_metadata_id", None)
+            f["continuous_paging_seq"] = msg.continuous_paging_seq
+            last = msg.continuous_paging_last
+            f["continuous_paging_last"] = None if last is None else bool(last)
+        elif k == "prepared":
+            f["query_id"] = msg.query_id
+            f["result_metadata_id"] = getattr(msg, "result_metadata_id", None)
+            f["pk_indexes"] = None if msg.pk_indexes is None else list(msg.pk_indexes)
+            f["bind_metadata"] = _cols(msg.bind_metadata)
+            f["bind_types"] = None if msg.bind_metadata is None else [type_tree(x[3]) for x in msg.bind_metadata]
+            f["column_metadata"] = _cols(msg.column_metadata)
+            f["column_metadata_types"] = None if msg.column_metadata is None else [type_tree(x[3]) for x in msg.column_metadata]
+    return f
+
+
+def HasReasonMap(pv):
+    return pv in (5, 6, 65, 66)
+
+
+_TYPE_FIELDS = ("column_types", "bind_types", "column_metadata_types")
+
+
+def _same(field, want, got):
+    if field in _TYPE_FIELDS:
+        if want is None or got is None:
+            return want is None and got is None
+        return len(want) == len(got) and all(type_matches(a, b) for a, b in zip(want, got))
+    if field == "token" and want is None:
+        return got in (None, b"", "")           # a null [bytes] may surface as None or as empty
+    return want == got
+
+
+def judge_response(st):
+    """(None, summary) when the real decoder agrees with the state; otherwise (group keys, summary)"""
+    exp = st["exp"]
+    cls = exp["cls"]
+    sub = exp.get("kind") or ("0x%04x" % exp["code"] if cls == "ERROR" else exp.get("etype")) or ""
+    scope = cls + (":" + sub if sub else "")
+    got = decode_case(st["c"], result_metadata_for(exp))
+    if got[0] == "raised":
+        return [("raised", scope, got[1])], {"raised": got[1], "text": got[2]}
+    want = expected_fields(st)
+    try:
+        have = projected_fields(st, got[1])
+    except Exception as ex:                     # projection of a message mangled by a broken driver
+        return [("unprojectable", scope, type(ex).__name__)], {"projection_raised": repr(ex)[:200]}
+    keys = []
+    for field in want:
+        if field not in have:
+            keys.append(("decode", scope, field + ":missing"))
+        elif not _same(field, want[field], have[field]):
+            keys.append(("decode", scope, field))
+    for field in have:
+        if field not in want:
+            keys.append(("decode", scope, field + ":unexpected"))
+    return (keys or None), {"want": want, "have": have}
 
 
 def decode_case(case, result_metadata=None):
